@@ -18,6 +18,7 @@ import (
 	"github.com/multiformats/go-multihash"
 
 	"github.com/ipfs/go-unixfsnode"
+	"github.com/ipld/go-ipld-prime/datamodel"
 	"github.com/ipld/go-ipld-prime/node/basicnode"
 	sb "github.com/ipld/go-ipld-prime/traversal/selector/builder"
 	"verifharness/mon"
@@ -629,6 +630,7 @@ func checkDirFaults(c *mon.Case, d dirCase) {
 		probes = append(probes, n+"x")
 	}
 	planNo := 0
+	lookupNo := 0
 	runPlan := func(what string, missing map[string]bool, kind int) {
 		st.ClearFaults()
 		st.Absent = missing
@@ -669,16 +671,32 @@ func checkDirFaults(c *mon.Case, d dirCase) {
 			}
 			var v ipld.Node
 			var lerr error
-			if !c.Guard("LookupByString with missing shard", func() { v, lerr = node.LookupByString(name) }) {
+			// the entry points rotate: by string, by segment, by a plain string node and by a dag-pb typed
+			// string node (the kind the directory's own iterators hand out)
+			lookupNo++
+			ep := lookupNo % 4
+			if !c.Guard("lookup with missing shard", func() {
+				switch ep {
+				case 0:
+					v, lerr = node.LookupByString(name)
+				case 1:
+					v, lerr = node.LookupBySegment(datamodel.PathSegmentOfString(name))
+				case 2:
+					v, lerr = node.LookupByNode(basicnode.NewString(name))
+				default:
+					v, lerr = node.LookupByNode(pbString(name))
+				}
+			}) {
 				continue
 			}
 			c.Count("lookups_checked", 1)
+			c.Count(fmt.Sprintf("lookups_entry_point_%d", ep), 1)
 			switch {
 			case crosses:
 				if lerr == nil {
-					c.Violation("C12|dir|lookup-no-error", "%s: LookupByString(%q) crosses an unavailable shard but returned a value", what, name)
+					c.Violation("C12|dir|lookup-no-error", "%s: lookup of %q crosses an unavailable shard but returned a value", what, name)
 				} else if isNotFound(lerr) {
-					c.Violation("C12|dir|lookup-not-found", "%s: LookupByString(%q) crosses an unavailable shard but reported not-found", what, name)
+					c.Violation("C12|dir|lookup-not-found", "%s: lookup of %q crosses an unavailable shard but reported not-found", what, name)
 				} else if !isInjected(lerr, kind) {
 					c.Violation("C12|dir|lookup-other-error", "%s: LookupByString(%q): error %T %v is not the load error", what, name, lerr, lerr)
 				} else {
